@@ -5,6 +5,11 @@
 //! `write_to_vec` and `write_to_slice` (exact-size buffer) on three separately constructed
 //! builders and compares the results (`!serialisers-differ(...)` if they are not identical),
 //! and prints `size(payload.len())`.
+//!
+//! C16 additions (same grammar): `build.failw <cfg> <payload> <k>` runs `write` into a writer that
+//! accepts exactly k bytes and then fails with an injected error; `build.slicebuf <cfg> <payload>
+//! <cap>` is `build.slice` that also prints the cap bytes of the buffer afterwards and the state
+//! of a canary behind them.
 #![allow(unused_imports, dead_code)]
 use crate::util::*;
 use etherparse::err::packet::{BuildSliceWriteError, BuildVecWriteError, BuildWriteError};
@@ -1090,8 +1095,129 @@ fn run_slice(c: &Cfg, payload: &[u8], cap: usize) -> String {
     }
 }
 
+// ---------------------------------------------------------------------------------------------
+// C16: fault injection (the FailWriter of io.rs)
+
+const INJECTED: &str = "injected";
+
+/// accepts exactly `budget` bytes in total (partial writes allowed), then every non-empty write
+/// fails with the injected error. Records every accepted byte and counts calls after the failure.
+struct FailWriter {
+    budget: usize,
+    out: Vec<u8>,
+    failed: bool,
+    post: usize,
+}
+
+impl std::io::Write for FailWriter {
+    fn write(&mut self, buf: &[u8]) -> std::io::Result<usize> {
+        if buf.is_empty() {
+            return Ok(0);
+        }
+        if self.failed {
+            self.post += 1;
+            return Err(std::io::Error::new(std::io::ErrorKind::Other, INJECTED));
+        }
+        if self.budget == 0 {
+            self.failed = true;
+            return Err(std::io::Error::new(std::io::ErrorKind::Other, INJECTED));
+        }
+        let n = core::cmp::min(buf.len(), self.budget);
+        self.out.extend_from_slice(&buf[..n]);
+        self.budget -= n;
+        Ok(n)
+    }
+    fn flush(&mut self) -> std::io::Result<()> {
+        Ok(())
+    }
+}
+
+impl Final {
+    fn write_failing(self, w: &mut FailWriter, p: &[u8]) -> Result<(), BuildWriteError> {
+        match self {
+            Final::Udp(b) => b.write(w, p),
+            Final::Tcp(b) => b.write(w, p),
+            Final::I4(b) => b.write(w, p),
+            Final::I6(b) => b.write(w, p),
+            Final::Raw(b, n) => b.write(w, n, p),
+            Final::Arp(b) => b.write(w),
+        }
+    }
+}
+
+fn run_failw(c: &Cfg, payload: &[u8], k: usize) -> String {
+    let b = match mk(c) {
+        Ok(b) => b,
+        Err(m) => return m,
+    };
+    let mut w = FailWriter {
+        budget: k,
+        out: Vec::new(),
+        failed: false,
+        post: 0,
+    };
+    let rs = match b.write_failing(&mut w, payload) {
+        Ok(()) => "ok".to_string(),
+        Err(BuildWriteError::Io(e))
+            if e.kind() == std::io::ErrorKind::Other && e.to_string() == INJECTED =>
+        {
+            "err(io)".to_string()
+        }
+        Err(e) => format!("err({})", show_write_err(&e)),
+    };
+    format!("{};w={};post={}", rs, to_hex(&w.out), w.post)
+}
+
+const SB_FILL: u8 = 0xaa;
+const SB_CANARY: [u8; 8] = [0xc3, 0x3c, 0xc3, 0x3c, 0xa7, 0x7a, 0xa7, 0x7a];
+
+fn run_slicebuf(c: &Cfg, payload: &[u8], cap: usize) -> String {
+    let b = match mk(c) {
+        Ok(b) => b,
+        Err(m) => return m,
+    };
+    let mut buf = vec![SB_FILL; cap + SB_CANARY.len()];
+    buf[cap..].copy_from_slice(&SB_CANARY);
+    let r = b.write_to_slice(&mut buf[..cap], payload);
+    let s = match r {
+        Ok(n) if n > cap => format!("!returned-more-than-cap({})", n),
+        Ok(n) => format!("ok(n={},len={},{})", n, n, show_bytes(&buf[..n])),
+        Err(e) => format!("err({})", show_slice_err(&e)),
+    };
+    format!(
+        "{};buf={};canary={}",
+        s,
+        to_hex(&buf[..cap]),
+        if buf[cap..] == SB_CANARY {
+            "intact"
+        } else {
+            "clobbered"
+        }
+    )
+}
+
 pub fn run(op: &str, a: &[&str]) -> Option<String> {
     match (op, a) {
+        ("build.failw", [c, p, k]) | ("build.slicebuf", [c, p, k]) => {
+            let payload = parse_payload(p)?;
+            let k: usize = num(k)?;
+            // the capacity is allocated, the writer budget is only a number
+            if op == "build.slicebuf" && k >= 1_000_000 {
+                return None;
+            }
+            let cfg = match parse_cfg(c)? {
+                Ok(c) => c,
+                Err(m) => return Some(m),
+            };
+            if matches!(cfg.net, NetC::Arp(_)) && !payload.is_empty() {
+                return None;
+            }
+            Some(if op == "build.failw" {
+                run_failw(&cfg, &payload, k)
+            } else {
+                run_slicebuf(&cfg, &payload, k)
+            })
+        }
         ("build.write", [c, p]) => {
             let payload = parse_payload(p)?;
             let cfg = match parse_cfg(c)? {
